@@ -8,6 +8,14 @@ LEVEL_NOTE = ("Seeded search, not proof: a clean batch is evidence for the runs 
               "engine checks the external dsharp/maxsatz binaries shipped with the repository, which run as real code.")
 
 CLAIMED = {
+ "C04": dict(
+    technique="deterministic simulation: documented unbuffered / rc-first / seeded random-order message queues (existing init_message_stack seam), differential oracle vs default engine, scripted replay",
+    text="Each program is evaluated by the real pipeline with StackBasedEngine(unbuffered=True), (unbuffered=True, rc_first=True) and the RandomOrderEngine "
+         "of docs/source/engine.rst whose random.randint is the simulator's seeded, recorded and replayable choice source; outcome (instances, probabilities, "
+         "accept/reject) must equal the default engine's. The unchanged tree violates this property in several distinct ways (known findings F3-F5, F15-F17, "
+         "identified by call site, engine side, feature tags or corpus file); everything outside those signatures - in particular any probability difference not "
+         "matching F17 - is reported. Exploration level.",
+    design_ref="DESIGN.md §5 C04", quick_t=600, thorough_t=3600),
  "C03": dict(
     technique="deterministic simulation: seeded scheduler permuting the engine's sibling message batches (reorder faults), differential oracle vs identity schedule, ddmin replay",
     text="The real buffered engine is run under a simulator-owned scheduler (guarded hook in MessageFIFO) that permutes every batch of sibling "
